@@ -282,9 +282,13 @@ def circuit_from_stack(
 
     statements = list(qsyntax._stack.iter_statements())
 
-    do_implicit_measure = len(statements) == 0 or not statements[0].starts_with_prepare(
-        prepare
-    )
+    # Decided by the first statement that is not an empty block
+    first_is_prepare = None
+    for stmt in statements:
+        first_is_prepare = stmt.starts_with_prepare(prepare)
+        if first_is_prepare is not None:
+            break
+    do_implicit_measure = not first_is_prepare
 
     if do_implicit_measure:
         sexpr.append(prepare_gate.build(lookup_object))
@@ -441,7 +445,14 @@ class QBlock:
         return not isinstance(blk, QCase)
 
     def starts_with_prepare(self, name):
-        return len(self.statements) > 0 and self.statements[0].starts_with_prepare(name)
+        """Return whether the first statement in this block is a prepare
+        gate (or a subcircuit), looking past empty blocks; None if the
+        block has no statement at all."""
+        for stmt in self.statements:
+            answer = stmt.starts_with_prepare(name)
+            if answer is not None:
+                return answer
+        return None
 
 
 class QSequentialBlock(QBlock):
